@@ -118,6 +118,12 @@ def rule_comparison_pair(A, R, rule):
             seen4.add((v["fn"], v["bb"]))
             ida, idb = id_syms(v["args"][0]), id_syms(v["args"][1])
             bad = []
+            # the configured comparison may depend on both ids: each names a job of the current graph (the id of a job, or the id
+            # the caller passed to look the job up; the second may be a fixed marker), never a name taken from the old history
+            for which, a_, okk in (("first", v["args"][0], ("jobid", "param")), ("second", v["args"][1], ("jobid", "param", "const"))):
+                if a_ is None or a_[0] != "str" or not a_[1] or any(p_[0] not in okk for p_ in a_[1]):
+                    bad.append("the %s id is not (only) the id of a job of the current graph: %s"
+                               % (which, sorted(set(p_[0] for p_ in a_[1])) if a_ is not None and a_[0] == "str" else a_))
             for which, rec in (("recorded", v["args"][2]), ("current", v["args"][3])):
                 if rec is None or rec[0] != "str":
                     continue
